@@ -20,7 +20,7 @@ func init() {
 
 func menu(w *chain.World) []chain.Action {
 	return []chain.Action{
-		chain.V1Pay(true, 2), chain.V1SF(true), chain.V1Form(1, 2, 100), chain.V1Form(0, 2, 10), chain.V1Revise("pay"), chain.V1Proof(false),
+		chain.V1Pay(true, 2), chain.V1SF(true), chain.V1Form(1, 2, 100), chain.V1Form(0, 2, 10), chain.V1FormNoSig(1, 2, 10), chain.V1Revise("pay"), chain.V1Proof(false),
 		chain.V2Pay(chain.AddrV2, true, 2), chain.V2Pay(chain.AddrV1, false, 1), chain.V2SF(true), chain.V2Form(1, 2, 100), chain.V2Form(0, 1, 10),
 		chain.V2Revise("pay"), chain.V2Renew("partial"), chain.V2Proof(), chain.V2Expire(),
 	}
@@ -61,7 +61,7 @@ func run(c *vf.Ctx) {
 		x.Report(n + "/")
 	}
 	c.RequireFeature("attack_rejected", "control_accepted", "attack:same-block", "attack:same-tx", "attack:next-block-stale", "attack:next-block-updated", "attack:reorg",
-		"kind:sc-v1addr", "kind:sc-v2addr", "kind:sf", "kind:fc", "kind:v2fc", "kind:ephemeral")
+		"kind:sc-v1addr", "kind:sc-v2addr", "kind:sc-nosig", "kind:sf-nosig", "kind:sf", "kind:fc", "kind:v2fc", "kind:ephemeral")
 	c.Assume("every attack block is built by the harness' own builder: correct parent, timestamp, commitment/Merkle root, miner payout and nonce; the control experiment (same block without the second use) must be accepted, so an attack cannot be rejected merely for being badly sealed")
 }
 
@@ -93,6 +93,27 @@ func attacks(c *vf.Ctx, x *chain.Explorer, w *chain.World, path []string) {
 			us = append(us, useGen{"v2spend", func(w *chain.World, tag byte) (chain.Use, bool) { return w.UseV2SC(p, tag), true }, v2app})
 		}
 		targets = append(targets, target{"sc-v1addr", us})
+	}
+	// outputs whose unlock conditions need no signature at all (authorisation-shape variant of the same attack)
+	if p, ok := bc.PickSC(func(cl int) bool { return cl == chain.AddrNoSig }, types.Siacoins(10)); ok {
+		var us []useGen
+		if v1ok {
+			us = append(us, useGen{"v1spend", func(w *chain.World, tag byte) (chain.Use, bool) { return w.UseV1SC(p, tag), true }, v1app})
+		}
+		if v2ok {
+			us = append(us, useGen{"v2spend", func(w *chain.World, tag byte) (chain.Use, bool) { return w.UseV2SC(p, tag), true }, v2app})
+		}
+		targets = append(targets, target{"sc-nosig", us})
+	}
+	if p, ok := bc.PickSF(func(cl int) bool { return cl == chain.AddrNoSig }); ok {
+		var us []useGen
+		if v1ok {
+			us = append(us, useGen{"v1sfspend", func(w *chain.World, tag byte) (chain.Use, bool) { return w.UseV1SF(p, tag), true }, v1app})
+		}
+		if v2ok {
+			us = append(us, useGen{"v2sfspend", func(w *chain.World, tag byte) (chain.Use, bool) { return w.UseV2SF(p, tag), true }, v2app})
+		}
+		targets = append(targets, target{"sf-nosig", us})
 	}
 	if p, ok := bc.PickSC(func(cl int) bool { return cl == chain.AddrV2 }, types.Siacoins(10)); ok && v2ok {
 		targets = append(targets, target{"sc-v2addr", []useGen{{"v2spend", func(w *chain.World, tag byte) (chain.Use, bool) { return w.UseV2SC(p, tag), true }, v2app}}})
